@@ -9,6 +9,7 @@ environment:
   VFAULT_KIND  = crash  : os._exit(77) BEFORE performing the call (interruption point)
                | fail   : the call fails the way the real component fails: black raises / format-command exits non-zero,
                           open / rename / read raise OSError, write raises OSError after the file was opened for writing
+  VFAULT_SIGNAL = 1     : a failing format-command dies by SIGKILL (negative return code) instead of exiting with status 3
   VFAULT_FMT   = ok | garbage | fail : what the formatter does on EVERY call (deterministic formatter behaviour):
                           garbage = exit status 0 / no exception but unparsable output; fail = always raises / non-zero
 phases: "preview" = the report loop of pytest_sessionfinish (diff panels), "write" = everything after report_problems()
@@ -122,6 +123,9 @@ def install():
         def run(self, cmd, **kw):
             fail = boundary("format", None) or FMT == "fail"
             if fail:
+                if os.environ.get("VFAULT_SIGNAL"):
+                    # the formatter process is killed by a signal (subprocess reports a negative return code)
+                    return _format_sp.run(f"exec {sys.executable} -c 'import os, signal; os.kill(os.getpid(), signal.SIGKILL)'", **kw)
                 return _format_sp.run(f"{sys.executable} -c 'import sys; sys.stderr.write(\"injected\"); sys.exit(3)'", **kw)
             if FMT == "garbage":
                 return _format_sp.run(f"{sys.executable} -c 'print(\"def (((:\")'", **kw)
